@@ -22,7 +22,10 @@ def cond_key(p, drop=()):
 
 def bool_coercion_rule(chk, repo, clause='C11-b'):
     """the mask is only used through its boolean support in zernike / zernike_coordinates (C11-b; reused by C12)"""
-    for key in ('zernike.zernike', 'zernike.zernike_coordinates'):
+    for key in ('zernike.zernike', 'zernike.zernike_coordinates', 'zernike.zernike_fit', 'zernike.zernike_remove',
+                'zernike.zernike_basis', 'zernike.zernike_compose'):
+        if not repo.has_func(key) or 'mask' not in repo.func(key).param_names():
+            continue
         ff, pp, _ = analyse(repo, key)
         bare = False
         where = ''
@@ -30,7 +33,12 @@ def bool_coercion_rule(chk, repo, clause='C11-b'):
             vals = [p.ret] if p.status == 'return' else []
             for e in p.events:
                 if e.kind == 'call' and not str(e.data.get('callee', '')).startswith('ext:'):
-                    vals += list((e.data.get('bound') or {}).values())
+                    # handing the mask on to another function of the module (which coerces it itself) is not a use
+                    vals += [v for k_, v in (e.data.get('bound') or {}).items() if not (k_ == 'mask' and v == S('mask'))]
+                elif e.kind == 'call' and str(e.data.get('callee')) not in ('ext:numpy.asarray', 'ext:numpy.array', 'ext:numpy.asanyarray',
+                                                                            'ext:numpy.ascontiguousarray', 'ext:numpy.shape', 'ext:numpy.ndim'):
+                    vals += [a_ for a_ in (e.data.get('args') or []) if a_ is not None]
+                    vals += [a_ for a_ in (e.data.get('kwargs') or {}).values() if a_ is not None]
             for c, _, _ in p.conds:
                 vals.append(c)
             for v in vals:
@@ -272,6 +280,11 @@ def _bare_use(v):
                 return False
             if len(x) == 3 and x[0] == 'attr' and x[1] == ('sym', 'mask') and x[2] in ('shape', 'ndim', 'size'):
                 return False            # the geometry of the array does not depend on its values
+            if len(x) == 3 and x[0] == 'app' and isinstance(x[1], str) and x[1].startswith('call:'):
+                # the result of another function of the module that was handed the mask (and coerces it itself)
+                rest = [a_ for a_ in x[2] if not (isinstance(a_, Tup) and len(a_) == 2 and a_.items[0] == Const('mask')
+                                                  and a_.items[1] == S('mask'))]
+                return any(walk(i) for i in rest)
             return any(walk(i) for i in x)
         return False
     return walk(v)
